@@ -39,7 +39,7 @@ class AbstractDiscreteTimeOfflineInterpreter(AbstractOfflineInterpreter, Discret
         ts = dataset['time']
         for i in range(len(ts) - 1):
             duration = (ts[i+1] - ts[i]) * self.normalize
-        self.update_sampling_violation_counter(duration)
+            self.update_sampling_violation_counter(duration)
 
         # convert format
         out_t = [[a[0], a[1]] for a in zip(ts, rob)]
